@@ -481,6 +481,20 @@ func GuardAtoms(b *ssa.BasicBlock) []Atom {
 	return out
 }
 
+// EdgeAtoms returns the atoms known on the edge from b to its idx-th successor: those dominating b plus the one the
+// branch at the end of b contributes for that successor.
+func EdgeAtoms(b *ssa.BasicBlock, idx int) []Atom {
+	out := GuardAtoms(b)
+	if len(b.Instrs) == 0 {
+		return out
+	}
+	if iff, ok := b.Instrs[len(b.Instrs)-1].(*ssa.If); ok && len(b.Succs) == 2 && b.Succs[0] != b.Succs[1] {
+		a, _ := AtomOf(Guard{iff.Cond, idx == 0, iff})
+		out = append(out, a)
+	}
+	return out
+}
+
 // HasAtom reports whether block b is dominated by an atom with the given rendering.
 func HasAtom(b *ssa.BasicBlock, want string) bool {
 	for _, a := range GuardAtoms(b) {
